@@ -271,6 +271,23 @@ fn tree_hand() -> Vec<Decl> {
         d("[MEASure]:VOLTage:FOO", &[], R::Unit, true),
         d("[MEASure]:VOLTage:STR", &[Str, Str], R::Unit, true),
         d("[MEASure]:VOLTage:BLK", &[U8, Blk], R::Unit, true),
+        // a handler with exactly MAX_ARGS parameters, and mnemonics longer than the
+        // twelve characters SCPI recommends (the macro accepts them)
+        d("TEN", &[U8, U8, U8, U8, U8, U8, U8, U8, U8, U8], R::Unit, true),
+        d("SYSTem:TEN?", &[I16, I16, I16, I16, I16, I16, I16, I16, I16, Bool], R::Hid, true),
+        d("EXTRAordinarilyLONG:FOO", &[], R::Unit, true),
+        d("EXTRAordinarilyLONG:BAZ?", &[], R::Hid, true),
+        d("SYSTem:LONGmnemonic17:BAR", &[], R::Unit, false),
+        // a deep chain (eleven levels) with the same leaves at several depths
+        d("DEEP:A:B1:X_Y:SUB:LEAF:NUM:STATus:CURRent:VOLTage:FOO", &[], R::Unit, true),
+        d("DEEP:A:B1:X_Y:SUB:LEAF:NUM:STATus:CURRent:VOLTage:BAR", &[U8], R::Unit, true),
+        d("DEEP:A:B1:X_Y:SUB:LEAF:NUM:STATus:CURRent:VOLTage:BAZ?", &[], R::Hid, true),
+        d("DEEP:A:B1:X_Y:SUB:LEAF:NUM:STATus:CURRent:FOO", &[], R::Unit, true),
+        d("DEEP:A:B1:X_Y:SUB:LEAF:NUM:STATus:CURRent:BAZ?", &[], R::Hid, true),
+        d("DEEP:A:B1:X_Y:SUB:LEAF:NUM:STATus:FOO", &[], R::Unit, true),
+        d("DEEP:A:B1:X_Y:SUB:LEAF:NUM:STATus:BAR", &[U8], R::Unit, true),
+        d("DEEP:A:B1:X_Y:SUB:LEAF:NUM:FOO", &[], R::Unit, false),
+        d("DEEP:A:B1:X_Y:SUB:LEAF:NUM:BAZ?", &[], R::Hid, true),
     ]
 }
 
